@@ -299,3 +299,7 @@ Proof. exact PG.Props.C06.C06_nodes_linear. Qed.
 Theorem C10_jsonb_children_disjoint : same_as PG.Props.C06.C06_children_disjoint.
 Proof. exact PG.Props.C06.C06_children_disjoint. Qed.
 Print Assumptions C10_cost_ParseJSONB.
+
+(* one-page functions do not look behind their page *)
+Theorem C10_first_page_only_VerifyPageChecksum : same_as PG.Props.C19.C19_verify_page_first_only.
+Proof. exact PG.Props.C19.C19_verify_page_first_only. Qed.
